@@ -8,8 +8,12 @@ from .common import Case
 
 def proj_for(prop):
     def per_request(fn):
+        def one(x):
+            d = S.parse_result(x)
+            return fn(d) + (f" port={d['port']}" if d.get('port') is not None else '')
+
         def proj(out):
-            return ' ;; '.join(fn(S.parse_result(x)) for x in out.split(' ;; '))
+            return ' ;; '.join(one(x) for x in out.split(' ;; '))
         return proj
     if prop == 'C04':
         return per_request(lambda d: d['ret'])
@@ -100,4 +104,4 @@ def drop_ties(res, cases):
 
 def model_ties(cmds):
     outs = C.run_driver(cmds)
-    return [(' TIE ' in o or o.endswith(' TIE')) and not c.split(' ')[3] == '0' for c, o in zip(cmds, outs)]
+    return [(' TIE ' in o or o.endswith(' TIE')) and not c.split(' ')[5 if c.startswith('reqsline ') else 3] == '0' for c, o in zip(cmds, outs)]
